@@ -28,7 +28,7 @@ MANIFEST = {
 }
 EXPLANATION = 'Closed per-iteration terms of PathTpc::extend; recurrences on loop entry/back edges; push multiplicity vs counts; guards.'
 RULES = ['C06-1.linkpoints', 'C06-2.grades', 'C06-3.curves', 'C06-4.catenary', 'C06-5.counts', 'C06-6.contiguity', 'C06-7.split',
-         'C06-8.value', 'C06-9.finish']
+         'C06-8.value', 'C06-9.finish', 'C06-10.clear']
 ASSUMPTIONS = ['links validated: elevation / heading lists are empty or have >= 2 points with strictly increasing offsets ending at the link length']
 
 FID = 'PathTpc::extend'
@@ -119,6 +119,7 @@ def run(ctx):
     contiguity(ctx, S)
     split(ctx, S)
     value_and_finish(ctx)
+    clear_rule(ctx)
 
 
 def path_elem_index_ok(S, link):
@@ -484,3 +485,70 @@ def value_and_finish(ctx):
             ok = f is not None and f['res_coeff'] == ZERO and f['res_net'] in (lastv, lastp) and not ps[0].pc
             ctx.check(ok, R, 'PathTpc::finish|' + vec, 'finish appends a flat sentinel that keeps the last cumulative value',
                       'pushed %s' % show(ps[0].argvals[1], an.names)[:200], ctx.where(b, ps[0].span))
+
+
+def clear_rule(ctx):
+    """C06-10.clear: trimming the front of a path keeps the per-link counts and the profile vectors consistent.  `PathTpc::clear`
+    walks the link points from the first one, one at a time, while the NEXT link point still lies before the cut, adding up the
+    counts of exactly the link points it walks over (count of link k is added while the index is still k); it then removes that
+    many link points and, from each profile vector, as many entries as the summed count of that vector; `add_counts` adds each
+    count to its namesake.  (The speed points are handled separately in that function and are not part of this clause.)"""
+    R = 'C06-10.clear'
+    prog = ctx.prog
+    eng = engine(ctx)
+    b = prog.by_id.get('PathTpc::clear')
+    if b is None:
+        ctx.unproved(R, 'PathTpc::clear', 'anchor not found'); return
+    an = analysis_or_fail(ctx, R, b)
+    if an is None:
+        return
+    w = ctx.where(b)
+    nrm = lambda c: re.sub(r'::<.*?>', '', c.callee)
+    ac = [c for c in an.calls if nrm(c).endswith('LinkPoint::add_counts')]
+    if len(ac) != 1 or not ac[0].in_loop:
+        ctx.unproved(R, 'PathTpc::clear|count loop', 'expected one add_counts call inside a loop, found %d' % len(ac), w); return
+    c = ac[0]
+    src = c.argvals[1]
+    LP = (('obj', 1), ('f', 'link_points'))
+    ok = src[0] == 'ref' and src[1][:2] == LP and src[1][2][0] == 'idx' and src[1][2][1][0] == 'loopvar' and len(src[1]) == 3
+    if not ok:
+        ctx.bad(R, 'PathTpc::clear|count loop', 'the counts added are not those of link_points[idx] for the loop-carried idx: %s' % show(src, an.names)[:120], ctx.where(b, c.span)); return
+    L = src[1][2][1]
+    H, key = L[1], L[2]
+    ent = an.load(key, an.loop_entry[H]); backs = [an.load(key, s_) for s_ in an.loop_back.get(H, [])]
+    ctx.check(ent == ZERO and backs and all(v == mk('add', L, ONE) for v in backs), R, 'PathTpc::clear|count loop',
+              'link k contributes its counts while the index is k; the index starts at 0 and moves by one',
+              'index starts at %s and becomes %s' % (show(ent, an.names)[:40], [show(v, an.names)[:40] for v in backs]), ctx.where(b, c.span))
+    try:
+        ob = an.arg('offset_back')
+    except KeyError:
+        ob = None
+    want = mk('lt', ('pre', LP + (('idx', mk('add', L, ONE)), ('f', 'offset'))), ob) if ob is not None else None
+    ctx.check(len(c.pc) == 1 and c.pc[0][0] == want and c.pc[0][1] != '0', R, 'PathTpc::clear|count condition',
+              'a link is dropped exactly while the next link point lies before the cut', 'counts are added under %s' % [(show(x, an.names)[:120], o) for x, o in c.pc], ctx.where(b, c.span))
+    # accumulator: the local handed to add_counts; drains use its fields
+    acc = c.argvals[0][1] if c.argvals[0][0] == 'ref' else None
+    dr = {}
+    for d in an.calls:
+        if '::drain' in d.callee and d.argvals and d.argvals[0][0] == 'ref' and d.argvals[0][1][0] == ('obj', 1):
+            dr[d.argvals[0][1][-1][1]] = d
+    want_end = {'link_points': L, 'grades': ('loopvar', H, acc + (('f', 'grade_count'),)) if acc else None,
+                'curves': ('loopvar', H, acc + (('f', 'curve_count'),)) if acc else None,
+                'cat_power_limits': ('loopvar', H, acc + (('f', 'cat_power_count'),)) if acc else None}
+    for vec, we in want_end.items():
+        d = dr.get(vec)
+        ok = d is not None and len(d.argvals) > 1 and d.argvals[1][0] == 'agg' and d.argvals[1][1] == 'RangeTo' and dict(d.argvals[1][2]).get('end') == we
+        ctx.check(ok, R, 'PathTpc::clear|drain %s' % vec, 'removes the first %s entries' % ('idx' if vec == 'link_points' else 'Σ ' + vec.replace('s', '', 0)[:-1] + ' counts of the dropped links'),
+                  '%s.drain(%s)' % (vec, show(d.argvals[1], an.names)[:80] if d is not None and len(d.argvals) > 1 else 'missing'), ctx.where(b, d.span) if d is not None else w)
+    fb = prog.by_id.get('LinkPoint::add_counts')
+    if fb is None:
+        ctx.unproved(R, 'LinkPoint::add_counts', 'anchor not found'); return
+    fa = analysis_or_fail(ctx, R, fb)
+    if fa is not None:
+        okf = True
+        got = {}
+        for f_ in ('grade_count', 'curve_count', 'cat_power_count'):
+            v = fa.load((('obj', 1), ('f', f_)), fa.exit_state)
+            got[f_] = show(v, fa.names)[:60]
+            okf = okf and v == mk('add', ('pre', (('obj', 1), ('f', f_))), ('pre', (('obj', 2), ('f', f_))))
+        ctx.check(okf, R, 'LinkPoint::add_counts', 'each count is increased by its namesake of the other link point', 'add_counts computes %s' % got, ctx.where(fb))
